@@ -301,6 +301,13 @@ pub fn count_nonzero_width_chars(text: &str) -> usize {
     visible_chars(text).into_iter().filter(|c| ch_width_oracle(*c) > 0).count()
 }
 
+/// the input class of known findings KF5/KF6: a well-formed escape sequence that a word-level operation cuts in two — it contains a
+/// space and the ASCII-space separator is used, or it contains a hyphen and the hyphen splitter is used
+pub fn seq_cut_class(text: &str, o: &Opts) -> &'static str {
+    let cut = ansi_pieces(text).map_or(false, |ps| ps.iter().any(|(is_seq, t)| *is_seq && ((o.sep == Sep::Ascii && t.contains(' ')) || (o.spl == Spl::Hyphen && t.contains('-')))));
+    if cut { "[class=KF5-escape-sequence-cut-by-separator-or-splitter] " } else { "" }
+}
+
 /// split at the configured line ending
 pub fn paragraphs<'a>(text: &'a str, crlf: bool) -> Vec<&'a str> {
     text.split(if crlf { "\r\n" } else { "\n" }).collect()
